@@ -52,6 +52,10 @@ def drivers(tags):
         ds.append(Driver("drv_%s_split" % t, [("a", "in", 8, 4), ("out", "out", 8, 4)],
                          "        let x: %s = unsafe { transmute::<[u64; 4], %s>(*a) };\n        let (c0, c1) = x.split_vartime();\n"
                          "        out[0] = c0 as u64; out[1] = (c0 >> 64) as u64; out[2] = c1 as u64; out[3] = (c1 >> 64) as u64;" % (ty, ty), HOST))
+    ds.append(Driver("drv_sc448_split", [("a", "in", 8, 7), ("out", "out", 1, 58)],
+                     "        let x: crate::ed448::Scalar = unsafe { transmute::<[u64; 7], crate::ed448::Scalar>(*a) };\n"
+                     "        let (c0, c1) = x.split_vartime(); out[..29].copy_from_slice(&c0[..]); out[29..].copy_from_slice(&c1[..]);",
+                     "src/lib.rs"))
     # layout discovery drivers: which bytes of the returned tuples hold which field
     ds.append(Driver("drv_lay_bc", [("a", "in", 8, 2), ("b", "in", 8, 2), ("out", "out", 8, 5)],
                      "        let (e0, e1, f0, f1, bl) = lagrange128_basisconv_vartime(a, b);\n"
@@ -692,6 +696,7 @@ def obligations(tier, only=None):
             # a model of the cut, stubbed tail that the corpus does not reproduce stays inconclusive; a corpus failure is
             # the natively confirmed violation
             return res + cor
+        obs.extend(check_corpus_gfgen(built))
         for tg, (st, val) in zip(tags, pmap(work, tags, nproc=min(NCPU, len(tags)), timeout=3600)):
             if st == "ok":
                 obs.extend(val)
@@ -702,3 +707,50 @@ def obligations(tier, only=None):
     finally:
         built.close()
     return obs
+
+
+def check_corpus_gfgen(built):
+    """ed448::Scalar::split_vartime (gfgen type, generic Lagrange reduction): closed cases in a child process with a
+    time limit -- the repaired non-termination (55e187b) is a hang, not a panic"""
+    import subprocess
+    from .lhelp import native_crashes
+    n = F.L448
+    Rg = 1 << 448
+    drv = "drv_sc448_split"
+    ob = Obligation("default:sc448.split_vartime:corpus", "ground", ["backend::w64::gfgen split_vartime [ed448::Scalar]", "backend::w64::lagrange::lagrange_vartime"],
+                    "closed cases: integers of every bit length 1..445 (both signs), their inverses, small fractions; 20 s per call",
+                    "native run returns, and (c0, c1) (signed, 29 bytes each) satisfies c0 = k*c1 (mod n), c1 != 0")
+    t0 = time.time()
+    r = rng("c11gfgen")
+    ks = [0xb5e1dd67f138e657809e1eb587f7]       # little-endian bytes f787b51e9e8057e638f167dde1b5
+    for bits in list(range(1, 446, 3)) + [111, 112, 113, 120, 126, 127, 128]:
+        v = r.getrandbits(bits) | (1 << (bits - 1))
+        ks += [v % n, (-v) % n]
+        if bits % 9 == 0:
+            ks.append(pow(v, -1, n))
+            ks.append(r.getrandbits(max(1, bits // 3)) * pow(v, -1, n) % n)
+
+    def sgn(b):
+        x = int.from_bytes(bytes(b), "little")
+        return x - (1 << (8 * len(b))) if b[-1] & 0x80 else x
+    for k in ks:
+        a = k * Rg % n
+        inputs = {"a": [(a >> (64 * i)) & (2**64 - 1) for i in range(7)]}
+        try:
+            crashed, err = native_crashes(built, drv, inputs, timeout=20)
+        except subprocess.TimeoutExpired:
+            return [ob.fail({"key": "lagrange.first_loop.no_termination", "inputs": {"k": hex(k), "type": "ed448::Scalar"},
+                             "found_by": "native replay of closed cases: no return within 20 s"}, "native", time.time() - t0, 0)]
+        if crashed:
+            return [ob.fail({"key": "gfgen.split_vartime.panic", "inputs": {"k": hex(k), "type": "ed448::Scalar"}, "native_stderr": err[-300:],
+                             "found_by": "native replay of closed cases"}, "native", time.time() - t0, 0)]
+        o = built.native(drv, inputs)["out"]
+        c0, c1 = sgn(o[:29]), sgn(o[29:])
+        if k == 0:
+            good = (c0, c1) == (0, 1)
+        else:
+            good = c1 != 0 and (c0 - k * c1) % n == 0
+        if not good:
+            return [ob.fail({"key": "gfgen.split_vartime.contract", "inputs": {"k": hex(k), "type": "ed448::Scalar"},
+                             "native": {"c0": hex(c0), "c1": hex(c1)}, "found_by": "native replay of closed cases"}, "native", time.time() - t0, 0)]
+    return [ob.ok("native replay x%d" % len(ks), time.time() - t0, 0, syntactic=True)]
